@@ -55,8 +55,9 @@ func (self *Compiler) compilePrefixOp(op ast.PrefixOperator, span errors.Span) {
 func (self *Compiler) compileCallExpr(node ast.AnalyzedCallExpression) {
 	// Push each argument onto the stack
 	// The order is reversed so that later popping can be done naturally
+	argc := uint(len(node.Arguments.List))
 	for i := len(node.Arguments.List) - 1; i >= 0; i-- {
-		self.compileExpr(node.Arguments.List[i].Expression)
+		self.compileOperand(node.Arguments.List[i].Expression, argc-1-uint(i))
 	}
 
 	if node.Base.Kind() == ast.IdentExpressionKind {
@@ -75,7 +76,7 @@ func (self *Compiler) compileCallExpr(node ast.AnalyzedCallExpression) {
 				panic("This is an impossible state.")
 			}
 
-			self.compileExpr(node.Base)
+			self.compileOperand(node.Base, argc)
 			self.insert(newValueInstruction(Opcode_Copy_Push, *value.NewValueInt(int64(len(node.Arguments.List)))), node.Span())
 			self.insert(newPrimitiveInstruction(Opcode_Call_Val), node.Span())
 		} else {
@@ -101,7 +102,7 @@ func (self *Compiler) compileCallExpr(node ast.AnalyzedCallExpression) {
 			panic("This is an impossible state.")
 		}
 
-		self.compileExpr(node.Base)
+		self.compileOperand(node.Base, argc)
 
 		// insert number of args
 		self.insert(newValueInstruction(Opcode_Copy_Push, *value.NewValueInt(int64(len(node.Arguments.List)))), node.Span())
@@ -148,7 +149,7 @@ func (self *Compiler) compileInfixExpr(node ast.AnalyzedInfixExpression) {
 		self.insert(newOneStringInstruction(Opcode_Label, afterLabel), node.Range)
 	default:
 		self.compileExpr(node.Lhs)
-		self.compileExpr(node.Rhs)
+		self.compileOperand(node.Rhs, 1)
 		self.arithmeticHelper(node.Operator, node.Range)
 	}
 }
@@ -253,7 +254,7 @@ func (self *Compiler) compileExpr(node ast.AnalyzedExpression) {
 	case ast.RangeLiteralExpressionKind:
 		node := node.(ast.AnalyzedRangeLiteralExpression)
 		self.compileExpr(node.Start)
-		self.compileExpr(node.End)
+		self.compileOperand(node.End, 1)
 		// Boolean instruction is used to mark that the end of this range can be inclusive.
 		self.insert(newOneBoolInstruction(Opcode_Into_Range, node.EndIsInclusive), node.Range)
 	case ast.ListLiteralExpressionKind:
@@ -262,7 +263,7 @@ func (self *Compiler) compileExpr(node ast.AnalyzedExpression) {
 		self.insert(newValueInstruction(Opcode_Cloning_Push, *value.NewValueList(make([]*value.Value, 0))), node.Range)
 
 		for _, element := range node.Values {
-			self.compileExpr(element)
+			self.compileOperand(element, 1)
 			self.insert(newValueInstruction(Opcode_Copy_Push, *value.NewValueInt(2)), node.Range)
 			self.insert(newOneStringInstruction(Opcode_HostCall, LIST_PUSH), node.Range)
 		}
@@ -282,7 +283,7 @@ func (self *Compiler) compileExpr(node ast.AnalyzedExpression) {
 		for _, field := range node.Fields {
 			self.insert(newPrimitiveInstruction(Opcode_Duplicate), node.Range)
 			self.insert(newOneStringInstruction(Opcode_Member, field.Key.Ident()), node.Range)
-			self.compileExpr(field.Expression)
+			self.compileOperand(field.Expression, 2)
 			self.insert(newPrimitiveInstruction(Opcode_Assign), node.Range)
 		}
 	case ast.FunctionLiteralExpressionKind:
@@ -342,7 +343,7 @@ func (self *Compiler) compileExpr(node ast.AnalyzedExpression) {
 
 			if node.Operator != pAst.StdAssignOperatorKind {
 				self.insert(newOneStringInstruction(opCodeGet, name), node.Range)
-				self.compileExpr(node.Rhs)
+				self.compileOperand(node.Rhs, 1)
 				self.arithmeticHelper(node.Operator.IntoInfixOperator(), node.Range)
 			} else {
 				self.compileExpr(node.Rhs)
@@ -355,10 +356,10 @@ func (self *Compiler) compileExpr(node ast.AnalyzedExpression) {
 
 			if node.Operator != pAst.StdAssignOperatorKind {
 				self.insert(newPrimitiveInstruction(Opcode_Duplicate), node.Range)
-				self.compileExpr(node.Rhs)
+				self.compileOperand(node.Rhs, 2)
 				self.arithmeticHelper(node.Operator.IntoInfixOperator(), node.Range)
 			} else {
-				self.compileExpr(node.Rhs)
+				self.compileOperand(node.Rhs, 1)
 			}
 
 			self.insert(newPrimitiveInstruction(Opcode_Assign), node.Range)
@@ -370,7 +371,7 @@ func (self *Compiler) compileExpr(node ast.AnalyzedExpression) {
 	case ast.IndexExpressionKind:
 		node := node.(ast.AnalyzedIndexExpression)
 		self.compileExpr(node.Base)
-		self.compileExpr(node.Index)
+		self.compileOperand(node.Index, 1)
 		self.insert(newPrimitiveInstruction(Opcode_Index), node.Range)
 	case ast.MemberExpressionKind:
 		node := node.(ast.AnalyzedMemberExpression)
@@ -417,7 +418,7 @@ func (self *Compiler) compileExpr(node ast.AnalyzedExpression) {
 
 			for _, lit := range option.Literals {
 				// Insert value to compare with
-				self.compileExpr(lit)
+				self.compileOperand(lit, 1)
 
 				// Compare control and branch value
 				// TODO: could DUP also work?
